@@ -616,6 +616,9 @@ func isArrayStringEqual(a []string, b []string) bool {
 	if len(a) != len(b) {
 		return false
 	}
+	// compare as sets, on copies: the unique statements that stay keep the order they were written in
+	a = append([]string{}, a...)
+	b = append([]string{}, b...)
 	sort.Strings(a)
 	sort.Strings(b)
 	for i := range a {
